@@ -689,8 +689,15 @@ func ruleGaugePair(r *Run) {
 						n++
 						incAt = ei
 						vals := map[string]bool{}
-						collect := func(holder *Func, x ast.Node) {
+						var collect func(holder *Func, x ast.Node, depth int)
+						collect = func(holder *Func, x ast.Node, depth int) {
 							ast.Inspect(x, func(n ast.Node) bool {
+								// labels built by a looked-into helper (of a helper)
+								if c, ok := n.(*ast.CallExpr); ok && depth < 4 {
+									if res, rfn, ok := r.P.inlinedResults(r.P.ownerOf(holder, c), c); ok && len(res) == 1 {
+										collect(rfn, res[0], depth+1)
+									}
+								}
 								if cl, ok := n.(*ast.CompositeLit); ok {
 									for _, el := range cl.Elts {
 										if kv, ok := el.(*ast.KeyValueExpr); ok {
@@ -707,16 +714,7 @@ func ruleGaugePair(r *Run) {
 								return true
 							})
 						}
-						collect(fn, se.X)
-						// labels built by a looked-into helper
-						ast.Inspect(se.X, func(n ast.Node) bool {
-							if c, ok := n.(*ast.CallExpr); ok {
-								if res, rfn, ok := r.P.inlinedResults(r.P.ownerOf(fn, c), c); ok && len(res) == 1 {
-									collect(rfn, res[0])
-								}
-							}
-							return true
-						})
+						collect(fn, se.X, 0)
 						// the series is named by state of this connection's decorator only (its endpoint and the client's
 						// app key), one field per label
 						ownFields := len(vals) == 2
@@ -948,6 +946,21 @@ func (r *Run) reachableFrom(fn *Func) map[*Func]bool {
 							visit(g)
 						}
 					}
+					// spawn(&wg, func(){ … }): the literal handed to a goroutine-starting helper at the parameter
+					// that the helper's goroutine calls runs on that goroutine, not here
+					if callee, ok := calleeObj(holder.Info(), v).(*types.Func); ok {
+						if k := r.spawnIndex(r.P.Funcs[callee]); k >= 0 && k < len(v.Args) {
+							if _, isLit := ast.Unparen(v.Args[k]).(*ast.FuncLit); isLit {
+								for i, a := range v.Args {
+									if i != k {
+										walk(a, holder)
+									}
+								}
+								walk(v.Fun, holder)
+								return false
+							}
+						}
+					}
 				}
 				return true
 			})
@@ -958,6 +971,48 @@ func (r *Run) reachableFrom(fn *Func) map[*Func]bool {
 	}
 	visit(fn)
 	return out
+}
+
+// spawnIndex: g is a goroutine-starting helper — its body has `go func(){ …; p(…) }()` with p a function-typed
+// parameter, which is called nowhere else in g; returns the index of p, or -1.
+func (r *Run) spawnIndex(g *Func) int {
+	if g == nil || g.Body == nil || g.Obj == nil {
+		return -1
+	}
+	idx := -1
+	ast.Inspect(g.Body, func(n ast.Node) bool {
+		if gs, ok := n.(*ast.GoStmt); ok {
+			if lit, ok := ast.Unparen(gs.Call.Fun).(*ast.FuncLit); ok {
+				if k := r.spawnedParam(g, lit); k >= 0 {
+					idx = k
+				}
+			}
+			return false
+		}
+		return true
+	})
+	if idx < 0 {
+		return -1
+	}
+	// called outside the goroutine too: then it also runs on the caller's thread
+	direct := false
+	ast.Inspect(g.Body, func(n ast.Node) bool {
+		if _, ok := n.(*ast.GoStmt); ok {
+			return false
+		}
+		if call, ok := n.(*ast.CallExpr); ok {
+			if id, ok := ast.Unparen(call.Fun).(*ast.Ident); ok {
+				if v, ok := g.Info().Uses[id].(*types.Var); ok && paramIndex(g, v) == idx {
+					direct = true
+				}
+			}
+		}
+		return true
+	})
+	if direct {
+		return -1
+	}
+	return idx
 }
 
 // ruleWaitFor (F4): self-cycles on a channel, and lock -> channel -> lock cycles.
